@@ -398,6 +398,7 @@ func init() {
 				}
 			}
 		}},
+		Stream{"structured.memberProduct", func(c *Ctx) { memberProduct(c, "structured.memberProduct") }},
 		Stream{"structured.tpm", func(c *Ctx) {
 			// TPM structure fields: name without digest (handle / empty), wrong type, mismatched algorithms — behind a correct extraData
 			for i := 0; i < c.N(6, 200); i++ {
